@@ -90,6 +90,7 @@ class Interp:
         self.loop_ord = {}
         self.spec_mode = 0
         self.trusted = set()              # stub names used
+        self.bound = []                   # z3 constants currently bound by an enclosing quantifier / comprehension
         self.dropped = []
         from . import stubs, speclib
         self.stubs = stubs
@@ -444,7 +445,20 @@ class Interp:
                 name = getattr(e, 'id', getattr(e, 'attr', 'Exception'))
             return [(st, Signal('raise', name))]
         if isinstance(s, ast.FunctionDef):
-            st.env[s.name] = VFunc(s.name, self.make_local_function(s))
+            nested = self.registry.get(f"{self.cur['qualname']}.{s.name}")
+            if nested is not None:
+                # nested def under its own contract: captured variables are extra (named) parameters
+                def call_nested(I, st_, args, kwargs, c=nested):
+                    fnode = frontend.load_function(c['module'], c['qualname']).node
+                    own = [a.arg for a in fnode.args.args]
+                    kw = dict(kwargs)
+                    for pname in c['params']:
+                        if pname not in own and pname not in kw:
+                            kw[pname] = st_.lookup(pname)
+                    return I.call_contract(c, args, kw, st_)
+                st.env[s.name] = VFunc(s.name, call_nested)
+            else:
+                st.env[s.name] = VFunc(s.name, self.make_local_function(s))
             return [(st, None)]
         if isinstance(s, ast.Delete):
             for t in s.targets:
@@ -599,6 +613,10 @@ class Interp:
                 st.glob[n] = nv
 
     def fresh_like(self, v, base, st):
+        if isinstance(v, VReal) and v.inf is not None:
+            f = z3.Int(fresh_name(base + '.inf'))
+            self.assume(st, z3.And(f >= -1, f <= 1))
+            return VReal(z3.Real(fresh_name(base)), inf=f)
         if isinstance(v, (VInt, VReal, VBool, VStr)):
             return fresh_value(v.kind, base)
         if isinstance(v, VNone):
@@ -787,12 +805,15 @@ class Interp:
         c = self.truth(self.eval(s.test, body_st), body_st)
         self.assume(body_st, c)
         self.cover(body_st, f'loop#{k}.body')
+        body_prev = copy.deepcopy({**body_st.glob, **body_st.env})     # prev(x): value at the start of this iteration
         dec = spec.get('decreases')
         d0 = self.spec(body_st, dec, pre=body_pre, raw=True) if dec else None
         body_st.trail.append(f'[{tag}]')
         outs = []
         for y, sig in self.exec_block(s.body, body_st):
             if sig is None or sig.kind == 'continue':
+                y._prev = body_prev
+                self.hint(y, f'loop#{k}.end', pre=body_pre)
                 for label, e in invs:
                     self.oblige(y, f'inv#{k}.preserve.{label}', self.spec(y, e, pre=body_pre), text=e)
                 if dec:
@@ -823,6 +844,13 @@ class Interp:
             return VSeq(k[1], z3.IntVal(0), z3.K(z3.IntSort(), to_term(fresh_value(k[1], 'dflt'), k[1])), flavor='list')
         if isinstance(v, VSet) and v.ek == 'unknown' and isinstance(k, tuple) and k[0] == 'set':
             return VSet(k[1], z3.K(sort_of(k[1]), z3.BoolVal(False)), z3.IntVal(0))
+        if isinstance(k, tuple) and k[0] == 'opt':
+            if isinstance(v, VNone):
+                return VOpt(z3.BoolVal(True), fresh_value(k[1], 'none'))
+            if not isinstance(v, VOpt):
+                return VOpt(z3.BoolVal(False), v)
+        if k == 'real' and isinstance(v, VReal) and v.inf is None and ks.endswith('#ext'):
+            return VReal(v.t, inf=z3.IntVal(0))
         return v
 
     def assign(self, t, v, st):
@@ -1079,6 +1107,7 @@ class Interp:
         return self.seq_from_items(items, st)
 
     def seq_from_items(self, items, st, ek=None, flavor='list'):
+        items = [x.val if isinstance(x, VOpt) and z3.is_false(z3.simplify(x.is_none)) else x for x in items]
         if not items:
             # empty list: element kind is fixed lazily on first append
             return VSeq(ek or 'unknown', z3.IntVal(0), None, flavor=flavor)
@@ -1104,6 +1133,8 @@ class Interp:
         return self.stubs.set_from_items(self, st, items)
 
     def e_Dict(self, e, st):
+        if e.keys and all(isinstance(k, ast.Constant) and isinstance(k.value, str) for k in e.keys):
+            return VObj('dictlit', {k.value: self.eval(v, st) for k, v in zip(e.keys, e.values)})
         if e.keys:
             raise EngineError('non-empty dict literal')
         return VDict('unknown', 'unknown', None, None, z3.IntVal(0))
@@ -1191,6 +1222,11 @@ class Interp:
         return self.ite(c, a, b)
 
     def ite(self, c, a, b):
+        cs = z3.simplify(c)
+        if z3.is_true(cs):
+            return a
+        if z3.is_false(cs):
+            return b
         if isinstance(a, VNone) and isinstance(b, VNone):
             return a
         if isinstance(a, VNone):
@@ -1203,6 +1239,13 @@ class Interp:
             return VOpt(z3.Not(c), a)
         if isinstance(a, VTuple) and isinstance(b, VTuple) and len(a.items) == len(b.items):
             return VTuple([self.ite(c, x, y) for x, y in zip(a.items, b.items)])
+        if isinstance(a, VReal) and isinstance(b, (VReal, VInt)) and (a.inf is not None or getattr(b, 'inf', None) is not None) \
+                or isinstance(b, VReal) and isinstance(a, (VReal, VInt)) and b.inf is not None:
+            ai = getattr(a, 'inf', None)
+            bi = getattr(b, 'inf', None)
+            return VReal(z3.If(c, to_term(VReal(a.t) if isinstance(a, VReal) else a, 'real'),
+                               to_term(VReal(b.t) if isinstance(b, VReal) else b, 'real')),
+                         inf=z3.If(c, ai if ai is not None else z3.IntVal(0), bi if bi is not None else z3.IntVal(0)))
         k = self.join_kinds([a.kind, b.kind])
         if isinstance(a, VSeq) and isinstance(b, VSeq):
             return VSeq(a.ek, z3.If(c, a.length, b.length), z3.If(c, a.arr, b.arr), flavor=a.flavor, dtype=a.dtype)
@@ -1237,7 +1280,7 @@ class Interp:
             if isinstance(v, VInt):
                 return VInt(-v.t)
             if isinstance(v, VReal):
-                return VReal(-v.t)
+                return VReal(-v.t, inf=None if v.inf is None else -v.inf)
             if isinstance(v, VSeq):
                 return self.lift1(v, lambda x: -x, v.ek)
         if isinstance(e.op, ast.UAdd):
@@ -1446,6 +1489,17 @@ class Interp:
             return VBool(z3.Not(self.equal(a, b, st)))
         if isinstance(a, (VInt, VReal, VBool)) and isinstance(b, (VInt, VReal, VBool)):
             both_int = not isinstance(a, VReal) and not isinstance(b, VReal)
+            ai = getattr(a, 'inf', None)
+            bi = getattr(b, 'inf', None)
+            if ai is not None or bi is not None:
+                # extended reals: order by (infinity class, finite value)
+                ai = ai if ai is not None else z3.IntVal(0)
+                bi = bi if bi is not None else z3.IntVal(0)
+                x, y = a.t if isinstance(a, VReal) else to_term(a, 'real'), b.t if isinstance(b, VReal) else to_term(b, 'real')
+                lt = z3.Or(ai < bi, z3.And(ai == 0, bi == 0, x < y))
+                gt = z3.Or(ai > bi, z3.And(ai == 0, bi == 0, x > y))
+                eq = z3.And(ai == bi, z3.Or(ai != 0, x == y))
+                return VBool({ast.Lt: lt, ast.LtE: z3.Or(lt, eq), ast.Gt: gt, ast.GtE: z3.Or(gt, eq)}[type(op)])
             x, y = (to_term(a, 'int'), to_term(b, 'int')) if both_int else (to_term(a, 'real'), to_term(b, 'real'))
             return VBool({ast.Lt: x < y, ast.LtE: x <= y, ast.Gt: x > y, ast.GtE: x >= y}[type(op)])
         if isinstance(a, VStr) and isinstance(b, VStr):
@@ -1542,6 +1596,10 @@ class Interp:
         """`x in L` for a sequence: a membership predicate with an index witness keyed by the *value*
         (MEM(x) <=> exists i < len. L[i] == x).  Keyed-by-value skolems close the chains that nested
         exists/forall membership facts would otherwise open (matching loops)."""
+        if any(self.stubs._mentions(cont.arr, b) or self.stubs._mentions(cont.length, b) for b in self.bound):
+            # the sequence itself depends on a bound variable (e.g. L[:t] under `for t in ...`): plain existential
+            i = z3.Int(fresh_name('i'))
+            return z3.Exists([i], z3.And(i >= 0, i < cont.length, self.equal(from_term(cont.arr[i], cont.ek), x, st)))
         cont = self.stubs.materialize(self, st, cont)
         key = (cont.arr.get_id(), z3.simplify(cont.length).get_id())
         tbl = self.__dict__.setdefault('_mem_tbl', {})
@@ -1620,6 +1678,13 @@ class Interp:
                 return self.eval_old(e.args[0], st)
             if e.func.id == 'pre' and self.spec_mode:
                 return self.eval_pre(e.args[0], st)
+            if e.func.id == 'prev' and self.spec_mode:
+                saved = getattr(st, '_pre', None)
+                st._pre = getattr(st, '_prev', None)
+                try:
+                    return self.eval_pre(e.args[0], st)
+                finally:
+                    st._pre = saved
             if e.func.id in ('forall', 'exists') and self.spec_mode:
                 return self.quantify_lambda(e.func.id, e, st)
         f = self.eval(e.func, st)
@@ -1656,6 +1721,9 @@ class Interp:
         for p, d in zip(names[len(names) - len(defaults):], defaults):
             if p not in bound:
                 bound[p] = self.const_value(ast.literal_eval(d))
+        for pname in c.get('params', {}):
+            if pname not in names and pname in kwargs:
+                bound[pname] = kwargs[pname]
         missing = set(names) - set(bound)
         if missing:
             raise EngineError(f"call of {c['qualname']}: missing {missing}")
@@ -1898,7 +1966,11 @@ class Interp:
             for c in comp.ifs:
                 conds.append(self.truth(self.eval(c, st), st))
         st.guards.append(z3.And(*conds))
-        body = self.truth(self.eval(gen.elt, st), st)
+        self.bound.extend(bound)
+        try:
+            body = self.truth(self.eval(gen.elt, st), st)
+        finally:
+            del self.bound[len(self.bound) - len(bound):]
         st.guards.pop()
         for nme, old in saved.items():
             if old is None:
@@ -1919,7 +1991,11 @@ class Interp:
             bound.append(v)
             saved[a.arg] = st.env.get(a.arg)
             st.env[a.arg] = from_term(v, k)
-        body = self.truth(self.eval(lam.body, st), st)
+        self.bound.extend(bound)
+        try:
+            body = self.truth(self.eval(lam.body, st), st)
+        finally:
+            del self.bound[len(self.bound) - len(bound):]
         for nme, old in saved.items():
             if old is None:
                 st.env.pop(nme, None)
